@@ -70,7 +70,7 @@ def run(tier, lab):
     r = lib.tlc("MC_Knock", timeout=300, constants={"Devs": "{}", "NProbes": "3", "Sim": "FALSE"})
     lib.tlc_must_pass(r, "Knock (PortsExactlyDistinctProbed, ReportedOncePerBurst)")
     ck.add_tlc(r, "Knock: all interleaved bursts of <= 3 probes from 3 sources over tcp/udp (2 ports) and icmp, exhaustive")
-    for dev in ("tcp_knock_unreachable", "udp_group_is_tcp", "remove_while_iterating", "group_ignores_source_ip"):
+    for dev in ("tcp_knock_unreachable", "udp_group_is_tcp", "remove_while_iterating", "group_ignores_source_ip", "stale_group_kept"):
         rd = lib.tlc("MC_Knock", timeout=200, constants={"Devs": '{"%s"}' % dev, "NProbes": "3", "Sim": "FALSE"}, want_scn=False)
         if rd.violated != "Inv":
             raise lib.Infra("deviation %s does not violate the Knock invariants in the model" % dev)
@@ -99,8 +99,23 @@ def run(tier, lab):
             src = "s%d" % (1 + n % nsrc)
             probes.append({"src": src, "via": "gw" if src in ("s1", "s2") else "own", "proto": "udp", "port": 3000 + n})
         scs.append({"id": len(scs), "probes": probes, "fast_first": fast, "pace_ms": pace})
-    results = lib.run_sharded(lab, "c20", [{k: v for k, v in s.items() if k in ("id", "probes", "fast_first", "pace_ms")} for s in scs],
-                              shards=min(lib.NCPU, 8), timeout=1200)
+    # a crowded minute: one source's burst, then another source keeps knocking every 4 s for longer than the detector keeps a
+    # group (60 s), so the quiet timer - which waits for silence from EVERY source - cannot fire in between (Knock!Age): each
+    # burst is still reported once. Runs in a lab process of its own, beside the others (70 s of pacing).
+    crowded = [{"src": "s3", "via": "own", "proto": "tcp", "port": p} for p in (22001, 22002, 22003)] + \
+              [{"src": "s1", "via": "gw", "proto": "tcp", "port": 3000 + i} for i in range(17)]
+    scs.append({"id": len(scs), "probes": crowded, "fast_first": 3, "pace_ms": 4000, "own_process": True})
+    slim = lambda xs: [{k: v for k, v in s.items() if k in ("id", "probes", "fast_first", "pace_ms")} for s in xs]
+    import threading
+    side = {}
+    th = threading.Thread(target=lambda: side.update(res=lib.run_sharded(lab, "c20", slim([s for s in scs if s.get("own_process")]), shards=1,
+                                                                         extra_args=["-shortwait"], timeout=600, tag="-crowded")))
+    th.start()
+    results = lib.run_sharded(lab, "c20", slim([s for s in scs if not s.get("own_process")]), shards=min(lib.NCPU, 8), timeout=1200)
+    th.join()
+    if "res" not in side:
+        raise lib.Infra("the crowded-minute scenario did not finish")
+    results = results + side["res"]
     byid = {x["id"]: x for x in results}
     multi = 0
     for sc in scs:
@@ -130,7 +145,8 @@ def replay(lab, path):
         uset_part(ck, "quick", lab)
     else:
         sc = {"id": 0, "probes": rp["probes"], "fast_first": rp.get("fast_first", 0), "pace_ms": rp.get("pace_ms", 0)}
-        res = lib.run_sharded(lab, "c20", [sc], shards=1, timeout=600)[0]
+        long_one = rp.get("pace_ms", 0) >= 1000
+        res = lib.run_sharded(lab, "c20", [sc], shards=1, timeout=600, extra_args=["-shortwait"] if long_one else None)[0]
         print(json.dumps(res)[:3000])
         judge(ck, sc, res)
     for sig, p, what in ck.violations:
